@@ -21,6 +21,7 @@ Fill1 ==
           /\ e.nfilled <= 1                                  \* at most one bin changes ...
           /\ e.got \in BinOf(p, C(e.xt, e.x), C(e.yt, e.y))  \* ... and it is an admissible one (or none)
           /\ e.callsok = 1                                   \* every bin reports the iteration's calls
+          /\ ("spill" \in DOMAIN e) => e.spill = 0           \* nothing reaches another distribution
     /\ l' = l + 1 /\ UNCHANGED <<n, params, acc, seen>>
 
 Mid ==
